@@ -118,7 +118,7 @@ PROPS = {
     },
     "C03": {
         "level": "model_checking",
-        "kani": ["c03_fri"],
+        "kani": ["c03_fri", "c03_channel"],
         "verus": [],
         "level_text": "Ok-path implications of the verifier-side reveal functions, stated modularly over the contract of "
                       "VectorCommitment::verify_many (recorded, arbitrary verdict) and an arbitrary functional hasher: "
@@ -185,7 +185,7 @@ PROPS = {
     },
     "C16": {
         "level": "model_checking",
-        "kani": ["c16_rp64", "c16_rp62", "c16_jive"],
+        "kani": ["c16_rp64", "c16_rp62", "c16_jive", "c16_mds"],
         "verus": [],
         "level_text": "Sponge rules of Rp64_256 (capacity initialisation, 7-byte chunking, single padding byte, rate-block "
                       "boundaries, merge == hash_elements of 8, merge_with_int split at the modulus) as contracts on the "
